@@ -210,6 +210,11 @@ def pointLastWsCurrent : G :=
 /-- LAST_COLUMN with separator -/
 def pointLastSep (sep : Char) : G :=
   .seq (.star (.seq cellSepPoints (.lit sep))) (.seq labelG (.alt (.plus .eol) .eoi))
+/-- `importCSVReaderSingleValue<T>`: `*auto_` (`int_`, `uint_`, `double_` for `T = int, unsigned, double`) -/
+def valuesInt : G := .star .int
+def valuesUInt : G := .star .uint
+def valuesReal : G := .star .real
+
 /-- the LibSVM record `double_ >> *(uint_ >> ':' >> double_)` (skipper `space`) -/
 def svmLineG : G := .seq .real (.star (.mark (.seq .uint (.seq (.lit ':') .real))))
 
